@@ -17,6 +17,12 @@ fn main() {
             let out: Vec<_> = insts.iter().map(|i| observe(i, &modes, &mut ctx, seed)).collect();
             write_ndjson(&args[3], &out);
         }
+        Some("threads") => { // vh threads <instances.ndjson> <out.json> <nthreads>
+            let insts = read_ndjson(&args[2]);
+            let n: usize = args.get(4).and_then(|x| x.parse().ok()).unwrap_or(8);
+            let r = vh::threadsx::run(&insts, n);
+            std::fs::write(&args[3], r.to_string()).unwrap();
+        }
         Some("valcmp") => { // vh valcmp <universe.json> <out.ndjson>   (one line per value: eq / cmp against every value)
             let u = read_json(&args[2]);
             let r = pure::valcmp(&u);
@@ -31,7 +37,7 @@ fn main() {
         Some("map") => { // vh map <fn> <cases.ndjson> <out.ndjson>
             let cases = read_ndjson(&args[3]);
             let f: fn(&Value) -> Value = match args[2].as_str() {
-                "schema" => vh::schemax::schema_check, "introspect" => vh::schemax::introspect, "introspect_invariants" => vh::schemax::introspect_invariants,
+                "schema" => vh::schemax::schema_check, "introspect" => vh::schemax::introspect, "introspect_invariants" => vh::schemax::introspect_invariants, "checker" => vh::schemax::checker_faults,
                 "cand" => pure::cand_case, "typepair" => pure::type_pair, "typeone" => pure::type_one, "valround" => pure::value_roundtrip,
                 o => { eprintln!("unknown map fn {o}"); std::process::exit(2) }
             };
